@@ -237,6 +237,10 @@ class Run(object):
             pos = [k for k, s in enumerate(after_slides) if s.part is slide.part]
             raise Violation("C13:order:not-last", "new slide is at position %r of %d"
                             % (pos, n + 1))
+        pnames = [str(x.part.partname) for x in after_slides]
+        if len(set(pnames)) != len(pnames):
+            raise Violation("C13:others-touched:partname", "after add_slide two slides share a part name: %r"
+                            % ([p for p in pnames if pnames.count(p) > 1][:2],))
         ids_after = self.sld_ids()
         if ids_after[:-1] != ids_before or len(ids_after) != n + 1:
             raise Violation("C13:order:sldIdLst", "p:sldIdLst before %r after %r"
@@ -702,6 +706,13 @@ def open_deck(case, stats):
     kind = case[0]
     if kind == "corpus":
         try:
+            rel = case[1]
+            if rel.endswith("|shift1"):
+                # the deck as it is after its first slide was deleted and it was saved: slide parts slide2..slide(n+1)
+                from checks.c02 import renamed
+                with open(corpus.path(rel[:-7]), "rb") as fh:
+                    data = fh.read()
+                return Presentation(io.BytesIO(renamed(data, "shift1") or data))
             return Presentation(corpus.path(case[1]))
         except Exception:
             stats.discarded += 1
@@ -827,8 +838,19 @@ def gen_cases(draw, max_ops):
     return ["gen", spec, ops]
 
 
+def _n_slides(rel):
+    import re
+    import zipfile
+    try:
+        with zipfile.ZipFile(corpus.path(rel)) as z:
+            return sum(1 for n in z.namelist() if re.match(r"ppt/slides/slide\d+\.xml$", n))
+    except Exception:
+        return 0
+
+
 def corpus_cases(decks, max_ops):
     first = st.tuples(st.just("add"), st.integers(0, 40)).map(list)
+    decks = list(decks) + [d + "|shift1" for d in decks if _n_slides(d) >= 2][:12]
     return st.tuples(st.just("corpus"), st.sampled_from(decks),
                      st.tuples(first, _ops([0, 1, 2, 5], max_ops)).map(lambda t: [t[0]] + t[1])
                      ).map(list)
